@@ -763,6 +763,25 @@ func ruleFileOrderGrowth(c *Ctx) {
 					return lk, ok && types.TypeString(m.Elem(), nil) == "bool"
 				}
 				hasTest := false
+				// a verdict helper / set type: absence from some set is necessary for reaching the append
+				{
+					blks := []*ssa.BasicBlock{b}
+					for g, depth := f, 0; depth < 2; depth++ {
+						sites := (cgView{c}).callersOf(g)
+						if len(sites) != 1 {
+							break
+						}
+						blks = append(blks, sites[0].Block())
+						g = sites[0].Parent()
+					}
+					for _, blk := range blks {
+						for _, m := range blockMemberships(blk) {
+							if !m.pos {
+								hasTest = true
+							}
+						}
+					}
+				}
 				for _, cc := range controlCondsPol(b) {
 					if lk, ok := isSetLookup(cc.Cond); ok {
 						// a test in the function itself: of the appended path, and the append is on its negative branch
